@@ -1576,6 +1576,12 @@ chkpnta(void)
 				/* reassign */
 				snds = nup;
 				zsnds = nuz;
+				/* the seen tree is made of these very nodes,
+				 * and they may have moved */
+				seen_init(&sntr);
+				for (size_t j = 0U; j < nsnds; j++) {
+					add_seen(&sntr, snds + j);
+				}
 			}
 			snds[nsnds] = (ndnd_t){.key = u, .fd = fd};
 			add_seen(&sntr, snds + nsnds++);
